@@ -2,7 +2,7 @@
 #![allow(clippy::all, unused_imports, dead_code)]
 use super::*;
 use crate::consts::*;
-use crate::interpreter::executors::verif_kani_vm::{unchanged_except, R_CGAS, R_FP, R_GGAS, R_HP, R_PC, R_RET, R_RETL};
+use crate::interpreter::executors::verif_kani_vm::{unchanged_except, R_CGAS, R_FP, R_GGAS, R_HP, R_PC, R_RET, R_RETL, R_SP, R_SSP};
 
 /// C28's contract for ReceiptsCtx::push (proved in Verus unit c28_receipts) stands in for the real
 /// function, whose receipt serialisation and Merkle push exhaust / crash the Kani compiler.
@@ -66,3 +66,90 @@ fn c34_ret_without_frame() {
     assert!(unchanged_except(&pre, &regs, &[R_RET, R_RETL, R_PC]), "C34 script-level RET changes nothing else");
     core::mem::forget(frames); core::mem::forget(memory); core::mem::forget(receipts);
 }
+
+// ---------------------------------------------------------------------------------------------
+// C30: CALL and the transaction's contract inputs (PrepareCallCtx::prepare_call, external context).
+// Memory: 80-byte stack holding the call structure (symbolic callee id, a, b) and a symbolic asset
+// id; no coins forwarded; no input contracts at all.
+// ---------------------------------------------------------------------------------------------
+fn call_unlisted(deployed: bool) -> (IoResult<(), core::convert::Infallible>, [Word; VM_REGISTER_COUNT], [Word; VM_REGISTER_COUNT], usize, crate::storage::MemoryStorage, ContractId, PanicContext) {
+    use crate::storage::{ContractsRawCode, MemoryStorage};
+    use fuel_storage::StorageAsMut;
+    let mut memory = MemoryInstance::new();
+    memory.grow_stack(80).unwrap();
+    let img: [u8; 80] = kani::any();
+    memory.write_bytes_noownerchecks(0u64, img).unwrap();
+    let to = ContractId::from(<[u8; 32]>::try_from(&img[..32]).unwrap());
+    let mut storage = MemoryStorage::new(1u32.into(), Default::default());
+    if deployed {
+        let code: [u8; 8] = kani::any();
+        storage.storage_as_mut::<ContractsRawCode>().insert(&to, &code[..]).unwrap();
+    }
+    let mut regs: [Word; VM_REGISTER_COUNT] = kani::any();
+    kani::assume(regs[R_FP] == 0 && regs[R_SSP] == 80 && regs[R_SP] == 80 && regs[R_HP] == VM_MAX_RAM && regs[R_CGAS] <= regs[R_GGAS]);
+    let pre = regs;
+    let mut context = Context::Script { block_height: 0u32.into() };
+    let mut balances = RuntimeBalances::default();
+    let inputs: BTreeSet<ContractId> = BTreeSet::new();
+    let mut panic_context = PanicContext::None;
+    let mut receipts = ReceiptsCtx::default();
+    let mut frames: Vec<CallFrame> = Vec::new();
+    let mut verifier = crate::verification::Normal;
+    let (base, per): (Word, Word) = (kani::any(), kani::any());
+    kani::assume(per >= 1 && per <= 4);
+    let r = PrepareCallCtx {
+        params: PrepareCallParams { call_params_pointer: 0, amount_of_coins_to_forward: 0, asset_id_pointer: 48, amount_of_gas_to_forward: kani::any() },
+        registers: (&mut regs).into(),
+        memory: &mut memory,
+        context: &mut context,
+        gas_cost: DependentCost::HeavyOperation { base, gas_per_unit: per },
+        runtime_balances: &mut balances,
+        new_storage_gas_per_byte: kani::any(),
+        storage: &mut storage,
+        input_contracts: &inputs,
+        panic_context: &mut panic_context,
+        receipts: &mut receipts,
+        frames: &mut frames,
+        current_contract: None,
+        verifier: &mut verifier,
+    }.prepare_call();
+    let depth = frames.len();
+    core::mem::forget(memory); core::mem::forget(receipts); core::mem::forget(frames); core::mem::forget(balances);
+    (r, pre, regs, depth, storage, to, panic_context)
+}
+fn is_panic<T>(r: &IoResult<T, core::convert::Infallible>, reason: PanicReason) -> bool {
+    matches!(r, Err(RuntimeError::Recoverable(p)) if *p == reason)
+}
+
+//@ props=C30 tier=thorough class=bounded(code=8bytes) timeout=2400 -- CALL to a deployed contract that is not among the inputs (no inputs at all; callee id, arguments, asset, gas all symbolic): refused with ContractNotInInputs naming the callee, no call frame is pushed, no balance entry is created for the callee
+#[kani::proof]
+#[kani::unwind(90)]
+#[kani::stub(crate::constraints::reg_key::split_registers, crate::interpreter::executors::verif_kani_vm::split_registers_stub)]
+#[kani::stub(crate::interpreter::receipts::ReceiptsCtx::push, receipts_push_stub)]
+fn c30_call_unlisted_deployed_is_refused() {
+    use crate::storage::{ContractsAssets, ContractsAssetKey};
+    use fuel_storage::{StorageAsRef, StorageInspect};
+    let (r, _pre, _post, depth, storage, to, pctx) = call_unlisted(true);
+    // the size-dependent gas charge precedes the input check in the current code (see F2), so running out of gas is the other possible refusal
+    assert!(is_panic(&r, PanicReason::ContractNotInInputs) || is_panic(&r, PanicReason::OutOfGas), "C30 CALL to a contract that is not among the inputs never succeeds: it is refused with ContractNotInInputs (or runs out of gas first)");
+    if is_panic(&r, PanicReason::ContractNotInInputs) { assert!(pctx == PanicContext::ContractId(to), "C30 the refusal names the callee"); }
+    kani::cover!(is_panic(&r, PanicReason::ContractNotInInputs), "refusal by the input check is reachable");
+    assert!(depth == 0, "C30 a refused CALL pushes no frame: the active context never becomes an unlisted contract");
+    let asset: [u8; 32] = kani::any();
+    let key = ContractsAssetKey::new(&to, &AssetId::from(asset));
+    assert!(!StorageInspect::<ContractsAssets>::contains_key(&storage, &key).unwrap(), "C30 no balance entry is created for the unlisted callee");
+    core::mem::forget(storage);
+}
+
+//@ props=C30 tier=quick class=proved-fin timeout=1800 -- F2 pin: CALL to an unlisted contract must be refused before any contract table is consulted: with nothing deployed the reason must still be ContractNotInInputs (the current code answers ContractNotFound because it reads the callee's code size first)
+#[kani::proof]
+#[kani::unwind(90)]
+#[kani::stub(crate::constraints::reg_key::split_registers, crate::interpreter::executors::verif_kani_vm::split_registers_stub)]
+#[kani::stub(crate::interpreter::receipts::ReceiptsCtx::push, receipts_push_stub)]
+fn c30_f2_call_unlisted_undeployed_reason() {
+    let (r, _pre, _post, _depth, storage, _to, _pctx) = call_unlisted(false);
+    assert!(is_panic(&r, PanicReason::ContractNotInInputs), "F2 CALL to an unlisted contract reads the callee's code size before the input check: the outcome depends on whether the unlisted contract is deployed");
+    core::mem::forget(storage);
+}
+
+// (a third harness - the gas charged by a refused CALL must not depend on the unlisted callee's code - exhausted CBMC memory and is not kept; F2 is pinned by the reason harness above)
